@@ -122,7 +122,7 @@ def translate_v_sd(S, va, ispriv, iswrite):
         'pa': cat(paext, pa32), 'ns': z3.If(S.is_secure(), nsd, z3.BoolVal(True)), 'attrs': attrs,
         'unpred': unpred, 'hw_af_update': z3.And(z3.Not(z3.Or(f_dis, f_tr1, f_tr2)), hw_af_update),
         'walked': z3.Not(z3.Or(f_dis, f_tr1, f_tr2, f_af)),
-        'l1type': t1, 'l2type': bits(l2, 1, 0),
+        'l1type': t1, 'l2type': bits(l2, 1, 0), 'use0': use0,
     }
 
 
